@@ -283,6 +283,25 @@ func c06PFCP(r *Run) {
 			seq uint32
 		}
 		var pends []pend
+		// establishments that take an address and are then refused by the datapath
+		// plug-in (a port range too wide to be installed): the address must be back
+		for k := 0; k < r.Ch.Choose(4, "refused"); k++ {
+			q := r.Peers[r.Ch.Choose(np, "refused-peer")]
+			bad := g.Session(q, SessShape{UEAlloc: true})
+			sdf := &FlowSpec{Valid: true, Dir: "out", Proto: 17, UESide: "assigned", RemoteIP: ipU32(ip4("8.8.4.4")), RemoteLen: 32, HasPort: true, PortLo: 2000, PortHi: 2000 + uint16(300+r.Ch.Choose(3000, "too-wide"))}
+			sdf.Text = fmt.Sprintf("permit out udp from 8.8.4.4 %d-%d to assigned", sdf.PortLo, sdf.PortHi)
+			for _, x := range bad.PDRs {
+				x.SDF = sdf
+			}
+			if res := q.Establish(bad); res.Accepted {
+				// (not refused after all: it holds an address like any other session)
+				if ip := bad.PDRs[1].GotUEIP; ip != nil {
+					held[ip.String()] = bad.CPSEID
+				}
+			} else if res.Rx != nil {
+				r.Probe("establishment-refused-after-address-was-taken")
+			}
+		}
 		for _, p := range r.Peers {
 			s := g.Session(p, SessShape{UEAlloc: true})
 			m := p.EstablishMsg(s)
